@@ -342,38 +342,10 @@ func runC09(c *Ctx) {
 	}
 
 	// ---------------------------------------------------------------------------------------
-	c.R.Rule("status-vs-dispatch", "in every HTTP transport: a WriteHeader with a status that is not a 2xx constant never shares a path with DispatchOperation; no WriteHeader is reachable from a body write", 7)
-	for _, do := range dos {
-		uses := c.rwUses(do)
-		var disp []ssa.Instruction
-		for _, fn := range an.WithClosures(do) {
-			for _, call := range an.CallsIn(fn, func(_ ssa.CallInstruction, ci an.CalleeInfo) bool { return ci.FullName() == mDispatchOp }) {
-				disp = append(disp, call)
-			}
-		}
-		key := shortFn(do)
-		bad := ""
-		nstatus := 0
-		for _, u := range uses {
-			if u.kind != "status" {
-				continue
-			}
-			nstatus++
-			if !is2xxConst(u.code) {
-				for _, d := range disp {
-					if u.reaches(d) || an.CanReach(d, u.in) {
-						bad = sprintf("non-2xx WriteHeader at %s shares a path with DispatchOperation at %s: a request answered with an error status may have executed", c.ipos(u.in), c.ipos(d))
-					}
-				}
-			}
-			for _, b := range uses {
-				if b.kind == "body" && b.in != u.in && b.reaches(u.in) {
-					bad = sprintf("WriteHeader at %s is reachable after the body write at %s (the status would be ignored)", c.ipos(u.in), c.ipos(b.in))
-				}
-			}
-		}
-		c.R.Check(bad == "", key+"/status", c.pos(do.Pos()), sprintf("%d status writes, %d dispatch sites: disjoint paths; headers precede bodies", nstatus, len(disp)), bad)
-	}
+	c09StatusVsDispatch(c, dos)
+	acceptScanTotal(c)
+	defaultHeadersWhenEmpty(c)
+	firstTransportWins(c)
 
 	// ---------------------------------------------------------------------------------------
 	c.R.Rule("status-tables", "statusFor*/errcode tables: KindProtocol→4xx constant, otherwise 200; parse and validation codes are KindProtocol; executor failure returns for parse/validation gates are preceded by errcode.Set with such a code", 8)
@@ -414,6 +386,8 @@ func runC09(c *Ctx) {
 				}
 			}
 			switch {
+			case proto == 1 && name == "statusForGraphQLResponse" && code != 400:
+				bad = sprintf("a parse/validation failure is answered %d for application/graphql-response+json; GraphQL over HTTP defines 400 for that media type", code)
 			case proto == 1 && code >= 400 && code <= 499:
 				okP = true
 			case proto == -1 && code == 200:
@@ -910,4 +884,47 @@ func overwrittenUnder(st *ssa.Store, cell ssa.Value, guarded func([]an.Fact, tok
 		}
 	}
 	return false
+}
+
+// c09StatusVsDispatch: shared with C10 (an error answer ends the request: nothing is executed or appended after it).
+func c09StatusVsDispatch(c *Ctx, dos []*ssa.Function) {
+	if dos == nil {
+		for _, t := range httpTransports {
+			if f := c.fn(pkgTransport, t+".Do"); f != nil {
+				dos = append(dos, f)
+			}
+		}
+	}
+	c.R.Rule("status-vs-dispatch", "in every HTTP transport: a WriteHeader with a status that is not a 2xx constant never shares a path with DispatchOperation; no WriteHeader is reachable from a body write", 7)
+	for _, do := range dos {
+		uses := c.rwUses(do)
+		var disp []ssa.Instruction
+		for _, fn := range an.WithClosures(do) {
+			for _, call := range an.CallsIn(fn, func(_ ssa.CallInstruction, ci an.CalleeInfo) bool { return ci.FullName() == mDispatchOp }) {
+				disp = append(disp, call)
+			}
+		}
+		key := shortFn(do)
+		bad := ""
+		nstatus := 0
+		for _, u := range uses {
+			if u.kind != "status" {
+				continue
+			}
+			nstatus++
+			if !is2xxConst(u.code) {
+				for _, d := range disp {
+					if u.reaches(d) || an.CanReach(d, u.in) {
+						bad = sprintf("non-2xx WriteHeader at %s shares a path with DispatchOperation at %s: a request answered with an error status may have executed", c.ipos(u.in), c.ipos(d))
+					}
+				}
+			}
+			for _, b := range uses {
+				if b.kind == "body" && b.in != u.in && b.reaches(u.in) {
+					bad = sprintf("WriteHeader at %s is reachable after the body write at %s (the status would be ignored)", c.ipos(u.in), c.ipos(b.in))
+				}
+			}
+		}
+		c.R.Check(bad == "", key+"/status", c.pos(do.Pos()), sprintf("%d status writes, %d dispatch sites: disjoint paths; headers precede bodies", nstatus, len(disp)), bad)
+	}
 }
